@@ -37,7 +37,7 @@ def pair_energy(model, r, eps, sig, rc, shift, n=None, alpha=None, s1rc=None):
     return s
 
 
-def h_hessian(ctx, d, N, types, model, shift, cell, ppp, n=None, alpha=None):
+def h_hessian(ctx, d, N, types, model, shift, cell, ppp, n=None, alpha=None, mass_order="asc"):
     ctx.covers(*FUNCS)
     hs = ctx.repo("PyMatterSim.static.hessians")
     ru = ctx.repo("PyMatterSim.reader.reader_utils")
@@ -46,7 +46,8 @@ def h_hessian(ctx, d, N, types, model, shift, cell, ppp, n=None, alpha=None):
     pos = [[ctx.real(f"p{i}_{a}") for a in range(d)] for i in range(N)]
     snap = C.snapshot(ctx, ru, 0, types, C.farr(ctx, pos), rows)
     K = 2
-    mass = {t: ctx.real(f"m{t}", positive=True) for t in (1, 2)}
+    # the masses map is looked up by type id: its insertion order is irrelevant (config mass_order)
+    mass = {t: ctx.real(f"m{t}", positive=True) for t in ((1, 2) if mass_order == "asc" else (2, 1))}
 
     def symm(name):
         a11, a12, a22 = (ctx.real(f"{name}11", positive=True), ctx.real(f"{name}12", positive=True), ctx.real(f"{name}22", positive=True))
@@ -237,6 +238,8 @@ def cfg(tier, seed):
     out.append(dict(base3, model="ipl", shift=True, n=6))
     out.append(dict(d=2, N=2, types=[1, 2], cell="o", ppp=[1, 1], model="lj", shift=True))
     out.append(dict(d=2, N=2, types=[1, 1], cell="t-", ppp=[1, 1], model="ipl", shift=False, n=12))
+    out.append(dict(d=2, N=2, types=[2, 1], cell="o", ppp=[1, 0], model="lj", shift=True))          # mixed periodicity mask
+    out.append(dict(d=2, N=2, types=[1, 2], cell="o", ppp=[0, 0], model="ipl", shift=True, n=6, mass_order="desc"))
     if tier == "thorough":
         for model, kw in (("lj", {}), ("ipl", dict(n=12)), ("hh", dict(alpha="2"))):
             out.append(dict(d=2, N=3, types=[1, 2, 1], cell="o", ppp=[0, 0], model=model, shift=True, **kw))
